@@ -34,7 +34,7 @@ from .. import gen, impl, ser
 
 ID = "C07"
 LEVEL = "proof"
-PROPS_MODULE = "SymmModel.Props.C07"
+PROPS_MODULE = "SymmModel.Props.C07All"
 THEOREMS = [
     "SymmModel.C07.plan_certificate_sound",
     "SymmModel.C07.plan_certificate_size",
@@ -46,20 +46,22 @@ THEOREMS = [
     "SymmModel.C07.expandDims_data",
     "SymmModel.C07.squeeze_data",
     "SymmModel.C07.mapBlocks_data",
+    "SymmModel.C07.content_perm_nonzero",
+    "SymmModel.C07.content_normSq2",
+    "SymmModel.C07.fuseCore_multiset",
+    "SymmModel.C07.fuseCore_multiset_general",
+    "SymmModel.C07.fuseCore_concat_multiset",
+    "SymmModel.C07.fuseA_multiset",
+    "SymmModel.C07.unfuseA_multiset",
+    "SymmModel.C07.expandDims_multiset",
+    "SymmModel.C07.squeeze_multiset",
+    "SymmModel.C07.fused_size_le",
+    "SymmModel.C07.applyPlan_content",
+    "SymmModel.C07.applyPlan_axes_count",
+    "SymmModel.C07.reshape_axes_count",
+    "SymmModel.C07.reshape_self_identity"
 ]
-LEAN_FILES = [
-    "SymmModel.Model.ReshapePlan",
-    "SymmModel.Model.Reshape",
-    "SymmModel.Driver.ReshapeH",
-    "SymmModel.Proofs.C07",
-    "SymmModel.Proofs.C07T4",
-    "SymmModel.Proofs.C07T5_1",
-    "SymmModel.Proofs.C07T5_2",
-    "SymmModel.Proofs.C07T5_3",
-    "SymmModel.Proofs.C07T5_4",
-    "SymmModel.Proofs.C07T5_6",
-    "SymmModel.Props.C07",
-]
+LEAN_FILES = ["SymmModel.Model.ReshapePlan", "SymmModel.Model.Reshape", "SymmModel.Driver.ReshapeH", "SymmModel.Proofs.C07", "SymmModel.Proofs.C07T4", "SymmModel.Proofs.C07T5_1", "SymmModel.Proofs.C07T5_2", "SymmModel.Proofs.C07T5_3", "SymmModel.Proofs.C07T5_4", "SymmModel.Proofs.C07T5_6", "SymmModel.Props.C07", "SymmModel.Props.C07b", "SymmModel.Props.C07All", "SymmModel.Proofs.ReshapeMore"]
 RULE = (
     "planner: the whole stated domain on every run (exhaustive, both directions) plus a seeded "
     "random extension; arrays: random sparse abelian/fermionic arrays (<= 4 axes, block sizes "
@@ -79,10 +81,7 @@ ASSUMPTIONS = [
     "newshape entries that are still negative after find_full_reshape are outside the model (never generated)",
     "the kernel-checked planner table speaks about symbolic (dense-product) shapes; sparse arrays, whose fused sizes shrink, are covered by the per-call certificate check (monitor) and the array stream",
 ]
-PLANNED = [
-    "unbounded theorem about the planner for all shapes (growth item; until then: table + per-call certificate)",
-    "fuse_preserves_multiset at the Arr level for arbitrary plans",
-]
+PLANNED = ["content preservation for fermionic arrays (fuseF/unfuseF sign operations)", "unbounded planner theorem (the certificate Plan.wfB is a hypothesis outside the finite table)"]
 TRUSTED_EXTRA = [
     "the Python enumeration of merge/drop targets equals the Lean enumeration `targets` (compared on every run for all 3 905 shapes)",
 ]
